@@ -103,3 +103,12 @@ package smx509
 //@   loop 1 invariant -1 <= rangeindex && rangeindex < len(resp.SignCerts) && len(signCerts) == len(resp.SignCerts)
 //@   heapnonnil
 //@   modifies everything
+
+// ---- CFCA request attributes (C13): no index or slice of the attacker-controlled temporary public key
+// leaves the bytes that were parsed, whatever its length
+//@ func parseCFCAAttributes property C13
+//@   requires out != nil
+//@   heapnonnil
+//@   loop 1 invariant -1 <= rangeindex && rangeindex < len(rawAttributes) && out != nil
+//@   loop 1 decreases len(rawAttributes) - rangeindex
+//@   modifies everything
